@@ -76,6 +76,9 @@ def data_program(n, how, walk, at_recursion_depth=None):
     return pre + "do down(n) start\n if to say (n na 0) start\n%s\n  return 0\n end\n return 1 add down(n minus 1)\nend\nshout(down(%d))" % (body, at_recursion_depth)
 
 
+NAMES = {}      # the crate's own texts for the two diagnostics this check looks for (filled in by run())
+
+
 def run_one(binp, src, td, timeout):
     path = os.path.join(td, "t.ns")
     with open(path, "w") as f:
@@ -92,7 +95,7 @@ def run_one(binp, src, td, timeout):
         return "PANIC"
     if "memory allocation of" in err:
         return "out-of-memory"
-    if "Stack overflow" in out:
+    if NAMES.get("so", "Stack overflow") in out:
         return "diag:Stack overflow"
     return "ok" if p.returncode == 0 else "diag"
 
@@ -119,7 +122,7 @@ def frontier(binp, gen, name, td, hi=4096):
         with open(path, "w") as f:
             f.write(gen(n)[name])
         p = subprocess.run([binp, "f.ns"], cwd=td, capture_output=True, timeout=300)
-        return p.returncode >= 0 and "Nesting too deep" not in p.stdout.decode(errors="replace") and "overflowed its stack" not in p.stderr.decode(errors="replace")
+        return p.returncode >= 0 and NAMES.get("deep", "Nesting too deep") not in p.stdout.decode(errors="replace") and "overflowed its stack" not in p.stderr.decode(errors="replace")
     if accepted(hi):
         return hi
     lo = 1
@@ -145,6 +148,10 @@ def run(tier):
     for c in m.records:
         for sh in c["shapes"]:
             model[sh] = model.get(sh, True) and (c["guarded"] or c["bounded"])
+    common.build_harness()
+    import langcheck
+    info = langcheck.info()
+    NAMES.update(so=info["runtime"]["Stack overflow"], deep=info["syntax"]["nesting-too-deep"])
     bins = {"debug": common.build_naija(False), "release": common.build_naija(True)}
     depths = [100, 1000, 10000] + ([] if q else [100000, 1000000])
     results = {}
